@@ -257,6 +257,10 @@ def gen_stages(run):
   for name in run.rot(list(CAT)):
     for mode in ("step", "after-limit"):
       yield (name, K, mode)
+  # every stage once more over a long run: internal batching or buffering that only starts after
+  # tens or hundreds of items would read ahead there
+  for name in CAT:
+    yield (name, min(run.pick(300, 1200), {"limit100": 100, "stream*list": 59}.get(name, 10 ** 9)), "step")
 
 
 def needs(stage, k):
